@@ -42,6 +42,17 @@ Theorem C03_depth_le_maxdepth :
 Proof. exact T2_depth. Qed.
 Print Assumptions C03_depth_le_maxdepth.
 
+(* ... also with target_integration_time: the bounds nuts::draw derives from it (eff_opts, any
+   max_steps = ceil(target_time / step_size)) never exceed the configured maxdepth *)
+Theorem C03_depth_le_maxdepth_target :
+  forall (wt : Z -> Q) (turn : Z -> Z -> bool) (bad fatal : Z -> bool) (o : nopts) (max_steps : option N)
+         (a : Z) (ticks : list Z) (r : dres),
+    n_extra o = 0%nat ->
+    outcome (pdraw wt turn bad fatal (eff_opts o max_steps) a) ticks r -> d_err r = None ->
+    (d_depth r <= n_maxdepth o)%nat.
+Proof. exact T2_depth_target. Qed.
+Print Assumptions C03_depth_le_maxdepth_target.
+
 (* 2^depth - 1 <= steps <= 2^(depth+1) - 1 *)
 Theorem C03_step_count :
   forall (wt : Z -> Q) (turn : Z -> Z -> bool) (bad fatal : Z -> bool) (o : nopts) (a : Z)
@@ -60,6 +71,21 @@ Theorem C03_at_least_one_step :
     outcome (pdraw wt turn bad fatal o a) ticks r -> (1 <= length ticks)%nat.
 Proof. exact T4_at_least_one. Qed.
 Print Assumptions C03_at_least_one_step.
+
+(* ... also under target_integration_time, however short (repaired: before the fix the derived
+   depth limit could be 0, witness below) *)
+Theorem C03_at_least_one_step_target :
+  forall (wt : Z -> Q) (turn : Z -> Z -> bool) (bad fatal : Z -> bool) (o : nopts) (max_steps : option N)
+         (a : Z) (ticks : list Z) (r : dres),
+    (1 <= n_maxdepth o)%nat -> n_dim0 o = false ->
+    outcome (pdraw wt turn bad fatal (eff_opts o max_steps) a) ticks r -> (1 <= length ticks)%nat.
+Proof. exact T4_at_least_one_target. Qed.
+Print Assumptions C03_at_least_one_step_target.
+
+Theorem C03_old_target_time_no_step_refuted :
+  exists (M m : nat) (n : N), (1 <= M)%nat /\ snd (eff_depths_old M m (Some n)) = 0%nat.
+Proof. exact eff_depths_old_stuck. Qed.
+Print Assumptions C03_old_target_time_no_step_refuted.
 
 (* the draw is the start or a state the integrator reached; every other state of the returned
    tree was reached too and none of them diverged or failed: nothing of a rejected sub-tree and
